@@ -57,11 +57,11 @@ def arg(rnd, compound_ok):
 
 def gen_project(rnd):
     feats = set()
-    body_shape = rnd.choice(["return-expr", "locals+return", "no-return", "two-statements-no-return", "multi-return",
-                             "uses-global", "uses-import", "local-collides"])
+    body_shape = rnd.choice(["return-expr", "locals+return", "locals+return", "locals+return", "no-return",
+                             "two-statements-no-return", "multi-return", "uses-global", "uses-import", "local-collides"])
     params = rnd.choice([["a"], ["a", "b=2"], ["a", "b=2", "c=5"], ["a", "b"], []])
     # spelling of the body's two locals (the clashing host uses the same spellings): plain, or like builtins
-    lt, lu = rnd.choice([("t", "u")] * 3 + [("sum", "max"), ("id", "u")])
+    lt, lu = rnd.choice([("t", "u")] * 2 + [("sum", "max"), ("sum", "max"), ("id", "u")])
     host = rnd.choice(["function", "function", "function", "method"])
     pnames = [p.split("=")[0] for p in params]
     expr = " + ".join(pnames) if pnames else "4"
